@@ -3,8 +3,8 @@ from ..core import Script, Rng
 from ..stage import LineStage, replay_line
 from .common import *
 
-ARTEFACTS = ["G1-consts", "G2-rs-portable", "G2-ref-compress", "G15-rs-sse41", "G24-portable-many", "G16-rs-avx2", "G17-rs-sse2", "G21-c-avx512", "G21-c-avx512-prog", "G18-c-sse41", "G19-c-sse2", "G20-c-avx2"]
-EXTRA_PROPS = [("B3.Simd.Sse41Props", "B3/Simd/Sse41Props.lean"), ("B3.Simd.Sse41PropsMany", "B3/Simd/Sse41PropsMany.lean"), ("B3.Props.C05P", "B3/Props/C05P.lean"), ("B3.Simd.Avx2Props", "B3/Simd/Avx2Props.lean"), ("B3.Simd.Sse2Props", "B3/Simd/Sse2Props.lean"), ("B3.Simd.CAvx512Props", "B3/Simd/CAvx512Props.lean"), ("B3.Simd.CSse41Props", "B3/Simd/CSse41Props.lean"), ("B3.Simd.CSse2Props", "B3/Simd/CSse2Props.lean"), ("B3.Simd.CAvx2Props", "B3/Simd/CAvx2Props.lean")]
+ARTEFACTS = ["G1-consts", "G2-rs-portable", "G2-ref-compress", "G15-rs-sse41", "G24-portable-many", "G16-rs-avx2", "G17-rs-sse2", "G21-c-avx512", "G21-c-avx512-prog", "G18-c-sse41", "G19-c-sse2", "G20-c-avx2", "G27-asm-sse41-compress", "G29-asm-sse2-compress"]
+EXTRA_PROPS = [("B3.Simd.Sse41Props", "B3/Simd/Sse41Props.lean"), ("B3.Simd.Sse41PropsMany", "B3/Simd/Sse41PropsMany.lean"), ("B3.Props.C05P", "B3/Props/C05P.lean"), ("B3.Simd.Avx2Props", "B3/Simd/Avx2Props.lean"), ("B3.Simd.Sse2Props", "B3/Simd/Sse2Props.lean"), ("B3.Simd.CAvx512Props", "B3/Simd/CAvx512Props.lean"), ("B3.Simd.CSse41Props", "B3/Simd/CSse41Props.lean"), ("B3.Simd.CSse2Props", "B3/Simd/CSse2Props.lean"), ("B3.Simd.CAvx2Props", "B3/Simd/CAvx2Props.lean"), ("B3.Props.C05A", "B3/Props/C05A.lean")]
 RULE = ("kernel calls, compared with the model's kernels (generated from src/portable.rs, proved = Spec.compress): single-block "
         "kernels on the grid block_len 0..64 x flag byte classes with random cv/block and counters from {0,1,2^32-1,2^32,2^32+1,2^63,"
         "2^64-1,random}; hash_many with num_inputs 0..2*degree+3, blocks in {1,16}, counters 2^32-k (k<=17) and near 2^64 so every "
@@ -12,8 +12,13 @@ RULE = ("kernel calls, compared with the model's kernels (generated from src/por
         "xof_many n in 1..40; for Rust Platform::{portable,sse2,sse41,avx2,avx512} in the default (asm via ffi), pure (Rust intrinsics) "
         "and prefer_intrinsics (C intrinsics) builds, and for every C symbol flavour incl. the Windows-GNU assembly through ms_abi; "
         "non-trivial = every call (distinct arguments); distinct = distinct op line")
-ASSUMPTIONS = ["the instruction sequences of the SIMD kernels are not modelled: a kernel defect confined to an argument class no generator produces would be missed"]
-NOT_PROVED = ["that each SIMD kernel's instruction sequence implements the kernel contract (established by correspondence only)"]
+ASSUMPTIONS = ["hand-written assembly: the single-block routines of the unix SSE4.1 and SSE2 files are translated instruction by instruction and proved "
+               "equal to Spec.compress under the machine semantics B3/Asm/Sse.lean (trusted; run against the CPU here); the other assembly "
+               "routines (hash_many, xof_many, AVX2, AVX-512, Windows files) are not modelled at instruction level: a defect in them confined to "
+               "an argument class no generator produces would be missed",
+               "the lane models of the intrinsics (Simd/Prim*.lean) and the machine semantics are trusted descriptions of the hardware, compared with the CPU on every run"]
+NOT_PROVED = ["that the hand-written assembly hash_many / xof_many routines and the AVX2 / AVX-512 / Windows assembly files implement the kernel contract "
+              "(correspondence only; their calling-convention clause is proved in C07A)"]
 M64 = (1 << 64) - 1
 RS_PLATS = PLATFORMS
 C_SYMS = ["portable", "sse2_asm", "sse41_asm", "avx2_asm", "avx512_asm", "sse2_c", "sse41_c", "avx2_c", "avx512_c",
@@ -263,6 +268,71 @@ class SimdModelStage2:
         return dict(evaluations=evals, distinct=distinct, hist={"cases": evals}, samples=[], mismatches=mism)
 
 
+class AsmSemStage:
+    """the instruction lists generated from c/blake3_sse41_x86-64_unix.S and c/blake3_sse2_x86-64_unix.S (compress_in_place, compress_xof)
+    run by the machine semantics B3/Asm/Sse.lean, against the assembled routines on the CPU, with and without garbage in the unused
+    upper bits of the 8-bit arguments (`CK dirty`); also checks that the model run ends `ok returned` after the proved step count"""
+    name = "asm-semantics-vs-cpu"
+    STEPS = {("cip", "sse41"): 468, ("cxof", "sse41"): 476, ("cip", "sse2"): 552, ("cxof", "sse2"): 560}
+
+    def __init__(self, seed, n):
+        self.seed, self.n = seed, n
+
+    def run(self, lean_exe):
+        from .. import core
+        import subprocess
+        rng = Rng(self.seed)
+        mism, evals, distinct = [], 0, set()
+        okc, cexe, clog = core.build_c()
+        if not okc:
+            return dict(evaluations=0, distinct=set(), hist={}, samples=[], mismatches=[dict(kind="driver-crash", impl_name="c", ops=[], log_tail=clog[-2000:])])
+        D = {0: 0, 1: 0xA5C3A5C300000000, 2: 0xA5C3A5C3A5C3A500}
+        c_lines, l_lines, meta = [], [], []
+        for isa in ("sse41", "sse2"):
+            for op in ("cip", "cxof"):
+                for dirty in (0, 1, 2):
+                    c_lines.append(f"CK dirty {dirty}")
+                    meta.append(None)
+                    for k in range(self.n if dirty == 0 else (3 * self.n) // 4):
+                        cv, blk = rhex(rng, 32), rhex(rng, 64)
+                        bl = rng.randrange(0, 65) if k % 3 else rng.randrange(256)
+                        fl = rng.randrange(256)
+                        ctr = counters(rng)
+                        c_lines.append(f"CK {op} {isa}_asm {cv} {blk} {bl} {ctr} {fl}")
+                        meta.append(len(l_lines))
+                        l_lines.append(f"{op} {isa} {cv} {blk} {bl | D[dirty]} {ctr} {fl | D[dirty]}")
+        c_lines.append("CK dirty 0")
+        meta.append(None)
+        rc, out, _ = core.run_driver(cexe, c_lines)
+        rcb, outb = core.run(["lake", "build", "B3.Asm.Run"], cwd=core.LEAN_DIR, timeout=3600)
+        if rcb != 0:
+            return dict(evaluations=0, distinct=set(), hist={}, samples=[],
+                        mismatches=[dict(kind="driver-crash", impl_name="c", ops=[], note="B3.Asm.Run does not build", log_tail=outb[-1500:])])
+        try:
+            pr = subprocess.run(["lake", "env", "lean", "--run", "RunAsm.lean"], cwd=core.LEAN_DIR, input="\n".join(l_lines) + "\n",
+                                stdout=subprocess.PIPE, stderr=subprocess.PIPE, text=True, timeout=3000)
+            mo = pr.stdout.split("\n")
+        except subprocess.TimeoutExpired:
+            mo = []
+        for i, a in enumerate(c_lines):
+            j = meta[i]
+            if j is None:
+                continue
+            x = out[i] if i < len(out) else "<missing>"
+            y = mo[j] if j < len(mo) else "<missing>"
+            if x == "unsupported":
+                continue
+            evals += 1
+            t = l_lines[j].split(" ")
+            want = f"{x} ok returned {self.STEPS[(t[0], t[1])]}"
+            if y != want and len(mism) < 6:
+                mism.append(dict(kind="impl-vs-model", impl_name="c", ops=[a], impl_differs=True, impl_output=x[:300], model_output=y[:300],
+                                 note="assembly routine on the CPU differs from the translated instruction list under the machine semantics "
+                                      "(or the model run faulted / used a different number of steps); model input: " + l_lines[j][:200]))
+        distinct |= set(l_lines)
+        return dict(evaluations=evals, distinct=distinct, hist={"cases": evals}, samples=[], mismatches=mism)
+
+
 def normalize(op, out):
     # flavours lacking a kernel / CPUs lacking an instruction set print `unsupported`: not comparable
     return out
@@ -278,7 +348,8 @@ def stages(tier, seed, witness_search=False):
     rs_scripts = [Script([o], tags=(" ".join(o.split(" ")[:3]),)) for o in rs_ops]
     c_scripts = [Script([o], tags=(" ".join(o.split(" ")[:3]),)) for o in c_ops]
     st = [LineStage("rs-asm", rs_scripts), LineStage("rs-pure", rs_scripts, features=("pure",)), LineStage("c-kernels", c_scripts, impl="c"),
-          SimdModelStage(seed + 5, 200 if tier == "quick" else 3000), SimdModelStage2(seed + 6, 60 if tier == "quick" else 1500)]
+          SimdModelStage(seed + 5, 200 if tier == "quick" else 3000), SimdModelStage2(seed + 6, 60 if tier == "quick" else 1500),
+          AsmSemStage(seed + 7, 40 if tier == "quick" else 2000)]
     if tier == "thorough":
         st.append(LineStage("rs-prefer_intrinsics", rs_scripts, features=("prefer_intrinsics",)))
     return st
@@ -286,7 +357,7 @@ def stages(tier, seed, witness_search=False):
 
 def replay(d, lean_exe):
     st = d.get("stage", "")
-    if st in ("rs-sse41-generated-vs-cpu", "simd-generated-vs-cpu"):
+    if st in ("rs-sse41-generated-vs-cpu", "simd-generated-vs-cpu", "asm-semantics-vs-cpu"):
         return dict(still_fails=False, note="re-run the check with the same VERIF_SEED; the model input line is in `note`")
     if st == "c-kernels":
         return replay_line(d, lean_exe, impl="c")
